@@ -33,8 +33,8 @@ static int32_t binarySearch_(const uint16_t *array, uint32_t length,
     return -(low + 1); /* Not found, return insertion point */
 }
 
-/* Count set bits in bitmap - used for validation/debugging */
-__attribute__((unused)) static uint32_t
+/* Count set bits in bitmap - used for validation */
+static uint32_t
 bitmapCardinality_(const uint8_t *bits) {
     uint32_t count = 0;
     for (uint32_t i = 0; i < VARINT_BITMAP_BITMAP_SIZE; i++) {
@@ -588,7 +588,10 @@ size_t varintBitmapEncode(const varintBitmap *vb, uint8_t *buffer) {
 }
 
 varintBitmap *varintBitmapDecode(const uint8_t *buffer, size_t len) {
-    (void)len; /* Unused, but kept for API consistency */
+    /* Header: type byte + 32-bit cardinality */
+    if (!buffer || len < 1 + sizeof(uint32_t)) {
+        return NULL;
+    }
 
     varintBitmap *vb = malloc(sizeof(varintBitmap));
     if (!vb) {
@@ -596,46 +599,122 @@ varintBitmap *varintBitmapDecode(const uint8_t *buffer, size_t len) {
     }
 
     /* Read type */
-    vb->type = (varintBitmapContainerType)*buffer++;
+    const uint8_t type = *buffer++;
 
     /* Read cardinality */
     memcpy(&vb->cardinality, buffer, sizeof(uint32_t));
     buffer += sizeof(uint32_t);
+    size_t remaining = len - 1 - sizeof(uint32_t);
 
-    switch (vb->type) {
+    switch (type) {
     case VARINT_BITMAP_ARRAY:
+        if (vb->cardinality > VARINT_BITMAP_MAX_VALUE ||
+            (size_t)vb->cardinality * sizeof(uint16_t) > remaining) {
+            free(vb);
+            return NULL; /* Declared contents exceed the input */
+        }
+
+        vb->type = VARINT_BITMAP_ARRAY;
         vb->container.array.capacity = vb->cardinality;
         vb->container.array.values = malloc(vb->cardinality * sizeof(uint16_t));
         if (!vb->container.array.values) {
             free(vb);
             return NULL; /* Out of memory */
         }
+
         memcpy(vb->container.array.values, buffer,
                vb->cardinality * sizeof(uint16_t));
+
+        /* Values must be strictly ascending (binary search relies on it) */
+        for (uint32_t i = 1; i < vb->cardinality; i++) {
+            if (vb->container.array.values[i] <=
+                vb->container.array.values[i - 1]) {
+                free(vb->container.array.values);
+                free(vb);
+                return NULL;
+            }
+        }
         break;
 
     case VARINT_BITMAP_BITMAP:
+        if (remaining < VARINT_BITMAP_BITMAP_SIZE) {
+            free(vb);
+            return NULL; /* Truncated */
+        }
+
+        vb->type = VARINT_BITMAP_BITMAP;
         vb->container.bitmap.bits = malloc(VARINT_BITMAP_BITMAP_SIZE);
         if (!vb->container.bitmap.bits) {
             free(vb);
             return NULL; /* Out of memory */
         }
+
         memcpy(vb->container.bitmap.bits, buffer, VARINT_BITMAP_BITMAP_SIZE);
+
+        /* The stored cardinality sizes later conversions: it must be true */
+        if (bitmapCardinality_(vb->container.bitmap.bits) != vb->cardinality) {
+            free(vb->container.bitmap.bits);
+            free(vb);
+            return NULL;
+        }
         break;
 
-    case VARINT_BITMAP_RUNS:
-        memcpy(&vb->container.runs.numRuns, buffer, sizeof(uint32_t));
+    case VARINT_BITMAP_RUNS: {
+        if (remaining < sizeof(uint32_t)) {
+            free(vb);
+            return NULL; /* Truncated */
+        }
+
+        uint32_t numRuns;
+        memcpy(&numRuns, buffer, sizeof(uint32_t));
         buffer += sizeof(uint32_t);
-        vb->container.runs.capacity = vb->container.runs.numRuns;
-        vb->container.runs.runs =
-            malloc(vb->container.runs.numRuns * 2 * sizeof(uint16_t));
+        remaining -= sizeof(uint32_t);
+        if (numRuns > VARINT_BITMAP_MAX_VALUE ||
+            (size_t)numRuns * 2 * sizeof(uint16_t) > remaining) {
+            free(vb);
+            return NULL; /* Declared contents exceed the input */
+        }
+
+        vb->type = VARINT_BITMAP_RUNS;
+        vb->container.runs.numRuns = numRuns;
+        vb->container.runs.capacity = numRuns;
+        vb->container.runs.runs = malloc(numRuns * 2 * sizeof(uint16_t));
         if (!vb->container.runs.runs) {
             free(vb);
             return NULL; /* Out of memory */
         }
+
         memcpy(vb->container.runs.runs, buffer,
-               vb->container.runs.numRuns * 2 * sizeof(uint16_t));
+               numRuns * 2 * sizeof(uint16_t));
+
+        /* Runs must be ascending, disjoint, inside the 16-bit universe and
+         * add up to the stored cardinality */
+        uint32_t total = 0;
+        uint32_t nextFree = 0;
+        for (uint32_t i = 0; i < numRuns; i++) {
+            const uint32_t start = vb->container.runs.runs[i * 2];
+            const uint32_t length = vb->container.runs.runs[i * 2 + 1];
+            if (length == 0 || start < nextFree ||
+                start + length > VARINT_BITMAP_MAX_VALUE) {
+                free(vb->container.runs.runs);
+                free(vb);
+                return NULL;
+            }
+            nextFree = start + length;
+            total += length;
+        }
+
+        if (total != vb->cardinality) {
+            free(vb->container.runs.runs);
+            free(vb);
+            return NULL;
+        }
         break;
+    }
+
+    default:
+        free(vb);
+        return NULL; /* Unknown container type */
     }
 
     return vb;
